@@ -731,3 +731,41 @@ pub async fn read_pdu_from_wire_async<R: tokio::io::AsyncRead + Unpin>(
     };
     Ok(msg)
 }
+
+/// Public mirror of the crate-private negotiated options
+/// (verification hook).
+#[cfg(enet4_dicom_rs_verif)]
+#[derive(Debug, Clone, PartialEq)]
+pub struct NegotiatedOptionsForVerif {
+    /// Maximum PDU length the peer can handle
+    pub peer_max_pdu_length: u32,
+    /// User variables accepted by the peer
+    pub user_variables: Vec<UserVariableItem>,
+    /// Presentation contexts accepted by the peer
+    pub presentation_contexts: Vec<PresentationContextNegotiated>,
+    /// The peer's AE title
+    pub peer_ae_title: String,
+}
+
+#[cfg(enet4_dicom_rs_verif)]
+impl From<NegotiatedOptions> for NegotiatedOptionsForVerif {
+    fn from(value: NegotiatedOptions) -> Self {
+        NegotiatedOptionsForVerif {
+            peer_max_pdu_length: value.peer_max_pdu_length,
+            user_variables: value.user_variables,
+            presentation_contexts: value.presentation_contexts,
+            peer_ae_title: value.peer_ae_title,
+        }
+    }
+}
+
+/// Encode a PDU into the provided buffer
+/// (verification hook, same as the crate-private `encode_pdu`).
+#[cfg(enet4_dicom_rs_verif)]
+pub fn encode_pdu_for_verif(
+    buffer: &mut Vec<u8>,
+    pdu: &Pdu,
+    peer_max_pdu_length: u32,
+) -> Result<()> {
+    encode_pdu(buffer, pdu, peer_max_pdu_length)
+}
